@@ -217,16 +217,10 @@ fn is_zero_size_impl<'a>(
             length_range,
             elements,
         }) => {
-            if *length_width == 0 {
-                // zero-sized array
-                if length_range.clone().count() == 1 && *length_range.start() == 0 {
-                    return Ok(true);
-                }
-                if is_zero_size_impl(elements.as_str(), schema, stack)? {
-                    return Ok(true);
-                }
-            }
-            false
+            // zero-sized array
+            *length_width == 0
+                && ((length_range.clone().count() == 1 && *length_range.start() == 0)
+                    || is_zero_size_impl(elements.as_str(), schema, stack)?)
         }
         Ok(Definition::Tuple { elements }) => all(elements.iter(), |key| *key, schema, stack)?,
         Ok(Definition::Enum {
